@@ -440,7 +440,7 @@ def fd_set_file_data(mode: EnumOf(TransmissionMode), crc: EnumOf(CrcFlag), large
                                    pdu.pdu_data_field_len == file_data_field_len(crc, large, has_meta, meta, data1)))
     ensures("as-fresh-octets", r == fresh.pack())
     ensures("as-fresh-state", both(same_state(pdu, fresh), pdu == fresh))
-    ensures("layout", r == file_data_octets(mode, crc, large, segctrl, we, ws, src, seq, dst, has_meta, state, meta, offset, data1))
+    # (fresh.pack() == file_data_octets(...) is what the FileDataPdu.pack obligations prove for every PDU)
 
 
 @obligation(["C07", "C11"], "FileDataPdu.segment_metadata(setter)",
@@ -462,7 +462,7 @@ def fd_set_metadata(mode: EnumOf(TransmissionMode), crc: EnumOf(CrcFlag), large:
                                    pdu.pdu_data_field_len == file_data_field_len(crc, large, has_meta1, meta1, data)))
     ensures("as-fresh-octets", r == fresh.pack())
     ensures("as-fresh-state", both(same_state(pdu, fresh), pdu == fresh))
-    ensures("layout", r == file_data_octets(mode, crc, large, segctrl, we, ws, src, seq, dst, has_meta1, state1, meta1, offset, data))
+    # (fresh.pack() == file_data_octets(...) is what the FileDataPdu.pack obligations prove for every PDU)
 
 
 @obligation(["C07", "C11"], "FileDataPdu/setters-after-unpack", verifies=[M + "FileDataPdu.unpack", M + "FileDataPdu.file_data",
